@@ -73,10 +73,9 @@ THEOREMS = [
     "XalanModel.Props.C13.copy_of_simulation",
     "XalanModel.Props.C13.key_simulation",
     "XalanModel.Props.C13.number_single_multiple_simulation",
-    "XalanModel.Props.C13.number_any_nofrom_loop_eq_count",
+    "XalanModel.Props.C13.number_any_loop_eq_count",
     "XalanModel.Props.C13.number_any_count_simulation",
-    "XalanModel.Props.C13.number_any_nofrom_simulation",
-    "XalanModel.Props.C13.number_any_from_counterexample",
+    "XalanModel.Props.C13.number_any_simulation",
     "XalanModel.Props.C13.observation_sites_accounted",
     "XalanModel.Props.C13.ordering_code_as_modelled",
 ]
@@ -188,10 +187,7 @@ def judge(case, r):
     (ia, ma), (ib, mb) = r["A"], r["B"]
     if kind in ("eval", "copy", "key", "number", "numbersm"):
         if ia != ib:
-            # the known `from` defect is the one the model mirrors: only when both outputs are exactly the modelled ones
-            sub = ""
-            if kind == "number" and case["from"]:
-                sub = "[from]" if (ia == ma and ib == mb) else "[from,not-as-modelled]"
+            sub = "[from]" if kind in ("number", "numbersm") and case["from"] else ""
             return ("violation", "%s.declared-vs-prestripped%s" % (kind, sub),
                     "output on (declarations, D) = %s but on (none, D') = %s" % (ia, ib))
         if ia.startswith("ERR") or ia.startswith("CRASH"):
@@ -397,7 +393,7 @@ CORPUS += [
      "expr": ("attr-of", ("stepP", ("step", ("root",), "descendant", ("any",)), "child", ("node",), ("num", 1)), ("", "n"))},
     {"kind": "eval", "sheet": S([dec(True, ("*",))]), "doc": CORPUS_DOC,
      "expr": ("attr-count", ("step", ("root",), "descendant", ("node",)))},
-    # the witness of Props.C13.number_any_from_counterexample (known finding C13-number-any-from)
+    # the witness that separated D and D' before /repo f84b15b (former known finding C13-number-any-from)
     {"kind": "number", "sheet": S([dec(True, ("q", "", "a"))]),
      "doc": D(E(R_, E(X_, T("x")), E(B_, E(A_, T(" "))), T("y"))), "count": ("text",), "from": ("name", "", "a")},
     {"kind": "number", "sheet": S([dec(True, ("q", "", "a"))]),
